@@ -15,5 +15,7 @@ Lemma link_fallback :
   Gen.Student.nonfinite_dof_replaced_in_from_particles = true /\ Gen.Student.nonfinite_dof_replaced_in_from_global = true
   /\ Gen.Student.each_mode_fitted_to_its_own_cluster = true
   /\ Gen.Student.global_mode_fitted_to_a_weighted_resample_of_all_particles = true
+  /\ Gen.Student.trainer_passes_its_fallback_to_every_mode_construction = true
+  /\ Gen.Student.core_hands_the_configured_fallback_to_the_trainer = true
   /\ Gen.Student.infinite_nu_returned_when_root_bracket_has_no_sign_change = true.
 Proof. repeat split. Qed.
